@@ -2,12 +2,15 @@ import Driver.Common
 import DcVerif.Model.RingLabel
 import DcVerif.Model.RingMulti
 import DcVerif.Model.RingPay
+import DcVerif.Model.RingMultiPay
 /-!
 Trace replay for the ring-buffer properties C04, C05, C06, C13, C14.
 
 * MISMATCH channel: every trace line of a single-producer pipeline is replayed on `Ring` (the thread id selects the
   model thread; after its internal steps the model's next visible operation must be the same kind, location,
-  value, ordering and observed value).
+  value, ordering and observed value), every line of a multi-producer pipeline on `RingMulti`. Both carry their slot
+  layer (`RingPay` / `RingMultiPay`): the payload of every `handle` line must be the content of the model's slot and the
+  value of every `write` line the value the model's producer / writer thread stores.
 * SPECFAIL channel: the properties' executable predicates are evaluated on the *implementation's* events
   (handler calls, slot accesses, cursor stores, orderings), independently of the model state.
 -/
@@ -38,7 +41,7 @@ def transform (v k j : Nat) : Nat := (v * 31 + (k * 16 + j + 1)) % 2 ^ 64
 /-- the model a trace is replayed on: single-producer or multi-producer pipeline -/
 inductive AnyModel
   | single (c : RingPay.PCfg) (x : RingPay.PaySt)     -- system state + slot layer
-  | multi (x : RingMulti.MSt)
+  | multi (c : RingMultiPay.MPCfg) (x : RingMultiPay.MPaySt)   -- system state + slot layer, multi producer
 
 inductive AnyTid
   | s (t : Ring.Tid)
@@ -56,7 +59,7 @@ def AnyModel.tid (md : AnyModel) (t : String) : Option AnyTid :=
   match md with
   | .single _ _ =>
     if t == "M" then some (.s .prod) else hnd.map (fun (k, j) => .s (.cons k j))
-  | .multi _ =>
+  | .multi _ _ =>
     if t == "M" then some (.m .drainer)
     else if t.startsWith "W" then ((t.drop 1).toString.toNat?).map (fun i => .m (.writer i))
     else hnd.map (fun (k, j) => .m (.cons k j))
@@ -64,39 +67,43 @@ def AnyModel.tid (md : AnyModel) (t : String) : Option AnyTid :=
 def AnyModel.skip (md : AnyModel) (t : AnyTid) : AnyModel :=
   match md, t with
   | .single c x, .s t => .single c { x with x := Ring.skipInternal x.x t 16 }
-  | .multi x, .m t => .multi (RingMulti.skipInternalM x t 16)
+  | .multi c x, .m t => .multi c { x with x := RingMulti.skipInternalM x.x t 16 }
   | md, _ => md
 
 def AnyModel.label (md : AnyModel) (t : AnyTid) : Option Ring.Label :=
   match md, t with
   | .single _ x, .s t => Ring.label x.x t
-  | .multi x, .m t => RingMulti.labelM x t
+  | .multi _ x, .m t => RingMulti.labelM x.x t
   | _, _ => none
 
 def AnyModel.enabled (md : AnyModel) (t : AnyTid) : Bool :=
   match md, t with
   | .single _ x, .s t => Ring.enabled x.x t
-  | .multi x, .m t => RingMulti.enabledM x t
+  | .multi _ x, .m t => RingMulti.enabledM x.x t
   | _, _ => false
 
 def AnyModel.step (md : AnyModel) (t : AnyTid) : AnyModel :=
   match md, t with
   | .single c x, .s t => .single c (RingPay.stepPay c x t)
-  | .multi x, .m t => .multi (RingMulti.stepM x t)
+  | .multi c x, .m t => .multi c (RingMultiPay.stepMPay c x t)
   | md, _ => md
 
-/-- payload the model expects for the next `handle` / `write` of the thread (single producer only) -/
+/-- payload the model expects for the next `handle` / `write` of the thread: the content of the slot the handler is about to
+read; the value the producer / the writer thread is about to store (multi producer: the writer's next item, `pay writer m w`
+with `m` the number of events that writer has written so far) -/
 def AnyModel.payload (md : AnyModel) (t : AnyTid) : Option Nat :=
   match md, t with
   | .single _ x, .s (.cons k j) => let cc := x.x.s.cons k j; some (x.slot (cc.i % x.x.s.n))
   | .single c x, .s .prod => some (c.pay x.x.p.w)
+  | .multi _ x, .m (.cons k j) => let cc := x.x.s.cons k j; some (x.slot (cc.i % x.x.s.n))
+  | .multi c x, .m (.writer i) => some (c.pay i (x.cnt i) (x.x.wr i).w)
   | _, _ => none
 
 def AnyModel.compact : AnyModel → AnyModel
   | .single c x =>
     let arr := ((List.range x.x.s.n).map x.slot).toArray
     .single c { x := Ring.compact x.x, slot := fun i => arr.getD i 0, seen := fun _ _ => [] }
-  | .multi x => .multi (RingMulti.compactM x)
+  | .multi c x => .multi c (RingMultiPay.compactMPay x)
 
 structure St where
   prop : String
@@ -125,9 +132,14 @@ def parseCfg (args : List String) : RCfg :=
 def mkModel (c : RCfg) : AnyModel :=
   let hs := c.stages.map (·.length)
   let harr := hs.toArray
-  if c.multi then .multi (RingMulti.mkM c.n c.stages.length (fun k => harr.getD k 0) c.block c.writers)
+  let st := c.stages.toArray.map (·.toArray)
+  if c.multi then
+    let cfg : RingMultiPay.MPCfg :=
+      { pay := fun w m _ => (w + 1) * 4294967296 + (m + 1),   -- the harness' writer `w` stores ((w+1) << 32) | counter, counter = its m-th event + 1
+        mutH := fun k j => (st.getD k #[]).getD j false,
+        tf := fun k j v => transform v k j }
+    .multi cfg (RingMultiPay.mkMPay c.n c.stages.length (fun k => harr.getD k 0) c.block c.writers)
   else
-    let st := c.stages.toArray.map (·.toArray)
     let cfg : RingPay.PCfg :=
       { pay := fun q => 4294967296 + q + 1,          -- what the harness' single writer stores: ((0+1) << 32) | (q+1)
         mutH := fun k j => (st.getD k #[]).getD j false,
@@ -585,8 +597,8 @@ def finish (s : St) (status : String) : List String :=
       -- at the end every model thread must have terminated as well
       let x := Ring.skipInternal px.x .prod 16
       if x.p.pc != .done then [s!"MISMATCH run complete but model producer is at {repr x.p.pc}"] else []
-    | some (.multi x), false, "ok" =>
-      if x.dr.pc != .done then [s!"MISMATCH run complete but model drainer is at {repr x.dr.pc}"] else []
+    | some (.multi _ px), false, "ok" =>
+      if px.x.dr.pc != .done then [s!"MISMATCH run complete but model drainer is at {repr px.x.dr.pc}"] else []
     | _, _, _ => []
   (dedup spec).take 6 ++ modelEnd
 
